@@ -32,7 +32,7 @@ def cases(tier, seed):
         scs = [0, 1]
     else:
         vks = [list(v) for n in (1, 2) for v in itertools.product(S.VAR_KINDS, repeat=n)] + [["bigbox", "bigupper"], ["bigbox"], ["boxed", "bigupper"], ["intbox", "intbox"], ["intbox"], ["narrowbox", "boxed"], ["narrowbox"], ["free", "narrowbox"]]
-        objs = ["cubic", "rosen", "exp", "qfull"]
+        objs = ["cubic", "rosen", "qfull"]
         rowsets = [[], [("sphere", "ranged")], [("affine", "eqoff")], [("cubic", "lower")],
                    [("bilinear", "eq0"), ("affine", "upper")], [("sphere", "eqoff"), ("bilinear", "lower")],
                    [("sphere", "upper"), ("cubic", "ranged")]]
